@@ -18,7 +18,10 @@ Projection (what the property speaks about):
   offset o > len: ignored;
   (line, column) with the column not splitting a surrogate pair: exact offset (clamping included);
   (line, column) pointing between the two UTF-16 units of an astral character: only "does not panic";
-  ranges: exact when both ends are exact and ordered; a reversed LSP range (TextRange::new asserts) is ignored.
+  ranges: exact when both ends are exact and ordered; a reversed LSP range (TextRange::new asserts) is ignored;
+  to_proto::folding_range (a, b), a <= b <= len: exact (line of a, line of b), boundary or not;
+  to_proto::{inlay_hint, location, diagnostic, document_link, document_symbol}: must give exactly what
+      to_proto::position / range give on the same input ("=").
 """
 import json
 import os
@@ -29,11 +32,13 @@ from concurrent.futures import ProcessPoolExecutor
 import vlib
 
 ALPHABET = [97, 32, 10, 13, 233, 8364, 128512, 12, 8232]   # a, space, LF, CR, e-acute, euro, U+1F600, FF, U+2028
-THEOREMS = ["C10_line", "C10_line_inside_crlf", "C10_roundtrip", "C10_clamp", "C10_impl_correct"]
+THEOREMS = ["C10_line", "C10_line_inside_crlf", "C10_boundary_cases", "C10_roundtrip", "C10_clamp", "C10_column",
+            "C10_line_exists", "C10_monotone", "C10_impl_correct", "C10_impl_folding_range", "C10_impl_wrappers",
+            "C10_impl_new", "C10_impl_partitioned", "C10_impl_char_boundary"]
 TRUSTED = [
     "Coq 8.16.1 kernel (coqc; vm_compute not needed by these proofs); no axioms (Print Assumptions: closed under the global context)",
     "statement of the specification pos_of/off_of and of count_terms/last_line/is_line in coq/model/LineIndex.v (read against the LSP specification)",
-    "hand-written model of line_index.rs / to_proto.rs / from_proto.rs in coq/model/LineIndex.v, tied to the code by the correspondence run of this check",
+    "hand-written model of line_index.rs, to_proto::{position,range,folding_range} (+ the wrappers inlay_hint/location/diagnostic/document_link/document_symbol as aliases), from_proto::{position,range} in coq/model/LineIndex.v, tied to the code by the correspondence run of this check",
     "modelled Rust std contracts: UTF-8 encoding of a String, str::is_char_boundary, str slicing panics, chars(), char::len_utf8/len_utf16, slice::partition_point on a partitioned slice (precondition proved), u32/usize conversions, debug-build overflow checks; text-size TextSize::of/try_from and the TextRange::new assertion",
     "Coq extraction (ExtrOcamlBasic only) and the OCaml driver coq/extract/lines_driver.ml",
     "Rust harness harness/src/bin/linesdump.rs, this Python driver and its reference mapper",
@@ -134,17 +139,26 @@ def expected(cps, g, rg):
     ps = [(l, c) for l in range(llo, lhi + 1) for c in range(clo, chi + 1)]
     offs = [ref_offset(lines, total, l, c) for (l, c) in ps]
     s2 = [str(o) if ex else "~" for (o, ex) in offs]
-    s3, s4 = [], []
+    s3, s4, s5, s6 = [], [], [], []
     if rg:
+        starts = [st for st, _c, _e in lines]
+
+        def line_tok(o):            # the line containing byte offset o (any offset inside the text, boundary or not)
+            return max(i for i, st in enumerate(starts) if st <= o)
         for a in range(olo, ohi + 1):
             for b in range(a, min(a + 2, ohi) + 1):
                 ta, tb = pos_tok(a), pos_tok(b)
                 if ta is None or tb is None:
                     s3.append(None)
+                    s5.append(None)
+                    s6.append(None)
+                    continue
                 elif ta == "~" or tb == "~":
                     s3.append("~")
                 else:
                     s3.append(ta + "-" + tb)
+                s5.append("%d-%d" % (line_tok(a), line_tok(b)))
+                s6.append("=")
         for k in range(len(ps) - 1):
             for (x, y) in ((k, k + 1), (k + 1, k)):
                 (ox, ex), (oy, ey) = offs[x], offs[y]
@@ -154,7 +168,7 @@ def expected(cps, g, rg):
                     s4.append(None if ox == oy else "~")
                 else:
                     s4.append("%d-%d" % (ox, oy))
-    return [s1, s2, s3, s4], ps
+    return [s1, s2, s3, s4, s5, s6], ps
 
 
 def split_obs(s):
@@ -174,9 +188,11 @@ def query_of(sec, k, g, ps, rg):
         return {"call": "lsp::to_proto::position", "offset": olo + k}
     if sec == 1:
         return {"call": "lsp::from_proto::position", "position": list(ps[k])}
-    if sec == 2:
+    if sec in (2, 4, 5):
         pairs = [(a, b) for a in range(olo, ohi + 1) for b in range(a, min(a + 2, ohi) + 1)]
-        return {"call": "lsp::to_proto::range", "range": list(pairs[k])}
+        call = {2: "lsp::to_proto::range", 4: "lsp::to_proto::folding_range",
+                5: "lsp::to_proto::{inlay_hint,location,diagnostic,document_link,document_symbol} vs position/range"}[sec]
+        return {"call": call, "range": list(pairs[k])}
     pr = [(ps[i], ps[j]) for kk in range(len(ps) - 1) for (i, j) in ((kk, kk + 1), (kk + 1, kk))]
     return {"call": "lsp::from_proto::range", "range": [list(pr[k][0]), list(pr[k][1])]}
 
@@ -227,7 +243,7 @@ def process_chunk(args):
             if (oi is None) != (om is None):
                 corr_fail.append({"text": cps, "query": {"call": "LineIndex::new"}, "model": sm, "observed": si})
             continue
-        for sec in range(4):
+        for sec in range(6):
             e, xi, xm = exp[sec], oi[sec], om[sec]
             if len(xi) != len(e) or len(xm) != len(e):
                 raise RuntimeError("observer/driver enumeration mismatch on %r section %d" % (cps, sec))
@@ -354,10 +370,49 @@ def spec_check(exe, texts):
     return bad, n
 
 
+def coq_cone(rel):
+    """the .v files props/C10.v depends on (transitively), from their `From TG.X Require [Import] A B.` lines"""
+    import re
+    dirs = {"Gen": "gen", "Model": "model", "Proofs": "proofs", "Props": "props", "Extract": "extract"}
+    seen, todo = set(), [rel]
+    while todo:
+        f = todo.pop()
+        if f in seen:
+            continue
+        seen.add(f)
+        try:
+            txt = vlib.strip_coq_comments(open(os.path.join(vlib.COQ, f)).read())
+        except OSError:
+            continue
+        for ns, mods in re.findall(r"From\s+TG\.(\w+)\s+Require\s+(?:Import\s+|Export\s+)?([^.]*)\.", txt):
+            for m in mods.split():
+                todo.append("%s/%s.v" % (dirs.get(ns, ns.lower()), m))
+        for ns, m in re.findall(r"Require\s+(?:Import\s+|Export\s+)?TG\.(\w+)\.(\w+)", txt):
+            todo.append("%s/%s.v" % (dirs.get(ns, ns.lower()), m))
+    return seen
+
+
 def run(ctx):
     t0 = time.time()
     bindir = vlib.build_harness(False, bins=["linesdump"])
     fails = vlib.proof_step(ctx, "TG.Props.C10", THEOREMS, ["props/C10.vo"], trusted_base=TRUSTED, translators=[])
+    # the forbidden-declaration scan of vlib covers every .v of the shared project; only files in the dependency
+    # cone of props/C10.v can affect these theorems (another group's unfinished file must not fail this property)
+    if not ctx.quick and not fails:
+        # thorough: re-check the compiled cone with the independent checker
+        t1 = time.time()
+        import re
+        with vlib.Lock("coq"):
+            rc, out = vlib.sh(["coqchk", "-silent", "-o", "-Q", "gen", "TG.Gen", "-Q", "model", "TG.Model", "-Q", "proofs",
+                               "TG.Proofs", "-Q", "props", "TG.Props", "TG.Props.C10"], cwd=vlib.COQ, timeout=900)
+        ok = rc == 0 and re.search(r"Axioms:\s*<none>", out) is not None
+        ctx.cov["coqchk"] = {"ok": ok, "wall_s": round(time.time() - t1, 1), "summary": out[-600:]}
+        if not ok:
+            fails.append({"kind": "coqchk", "file": "props/C10.vo", "error": out[-1500:]})
+    cone = coq_cone("props/C10.v")
+    ctx.cov["coq_cone"] = sorted(cone)
+    fails = [f for f in fails if not (f.get("kind") == "forbidden-declaration"
+                                      and f.get("where", "").split(":")[0] not in cone)]
     exe = vlib.build_model("lines")
     t_setup = time.time() - t0
 
